@@ -22,12 +22,16 @@ const (
 	checkerFile = "crl/crlrevocationchecker.go"
 )
 
-var lockNames = []string{"updateMutex", "workDirMutex", "repoLock", "entryLock"}
-var lockScopes = []string{".glob", ".glob", ".chk", ".ent"}
+// "lifecycle" is not a lock of the code base: it stands for Caddy's module lifecycle, which never runs
+// Provision and Cleanup of one checker instance concurrently (nor two Cleanups); the translator wraps the
+// `provision` and `cleanup` thread programs in it.
+var lockNames = []string{"updateMutex", "workDirMutex", "repoLock", "entryLock", "lifecycle"}
+var lockScopes = []string{".glob", ".glob", ".chk", ".ent", ".chk"}
+var lifecyclePrograms = map[string]bool{"provision": true, "cleanup": true}
 var fieldNames = []string{"repoMap", "entry.Loaded", "entry.CRLStore", "entry.storeContent", "entry.Chains",
 	"entry.LastUpdateSignatureVerifyFailed", "entry.LastUpdateSignature", "entry.CRLLoader", "entry.loaderState",
-	"checker.lastCrlUpdateFinishTime", "checker.crlUpdateStop", "checker.crlUpdateTicker", "workDirsInUse"}
-var fieldScopes = []string{".chk", ".ent", ".ent", ".ent", ".ent", ".ent", ".ent", ".ent", ".ent", ".chk", ".chk", ".chk", ".glob"}
+	"checker.lastCrlUpdateFinishTime", "checker.crlUpdateStop", "checker.crlUpdateTicker", "workDirsInUse", "entry.Closed"}
+var fieldScopes = []string{".chk", ".ent", ".ent", ".ent", ".ent", ".ent", ".ent", ".ent", ".ent", ".chk", ".chk", ".chk", ".glob", ".ent"}
 
 // functions that only run before the checker is handed out (Caddy provisions a module before it
 // serves, `go` orders them before the spawned goroutine): their writes to checker fields are
@@ -155,7 +159,7 @@ func genLocks(c *ctx, out string) {
 			}
 		}
 	}
-	for _, f := range []string{"entryLock", "CRLLoader", "CRLStore", "LastUpdateSignatureVerifyFailed", "LastUpdateSignature", "Loaded", "Chains"} {
+	for _, f := range []string{"entryLock", "CRLLoader", "CRLStore", "LastUpdateSignatureVerifyFailed", "LastUpdateSignature", "Loaded", "Chains", "Closed"} {
 		if !g.entryField[f] {
 			fail("locks: Entry has no field %s", f)
 		}
@@ -164,7 +168,7 @@ func genLocks(c *ctx, out string) {
 	if len(g.entryField) != 0 {
 		fail("locks: Entry has fields the lock model does not know: %v", g.entryField)
 	}
-	for _, f := range []string{"entryLock", "CRLLoader", "CRLStore", "LastUpdateSignatureVerifyFailed", "LastUpdateSignature", "Loaded", "Chains"} {
+	for _, f := range []string{"entryLock", "CRLLoader", "CRLStore", "LastUpdateSignatureVerifyFailed", "LastUpdateSignature", "Loaded", "Chains", "Closed"} {
 		g.entryField[f] = true
 	}
 	// which store / loader methods mutate the state the entry lock is supposed to protect
@@ -250,7 +254,14 @@ func genLocks(c *ctx, out string) {
 	for i, p := range progs {
 		b := &cfg{g: g, progIndex: progIndex, name: p[0]}
 		retNode := b.add("ret", "", nil)
-		entry := b.seq(g.funcs[p[1]].body, retNode, retNode, -1, -1, []string{p[1]})
+		exit := retNode
+		if lifecyclePrograms[p[0]] {
+			exit = b.add(fmt.Sprintf(".rel %d .w", idx(lockNames, "lifecycle")), "(module lifecycle)", []int{retNode})
+		}
+		entry := b.seq(g.funcs[p[1]].body, exit, exit, -1, -1, []string{p[1]})
+		if lifecyclePrograms[p[0]] {
+			entry = b.add(fmt.Sprintf(".acq %d .w", idx(lockNames, "lifecycle")), "(module lifecycle)", []int{entry})
+		}
 		b.finish(entry, nest)
 		cfgs = append(cfgs, b)
 		l.p("/-- thread program %d `%s` = %s, calls inlined -/", i, p[0], p[1])
